@@ -671,3 +671,108 @@ def _si_loop(c):
 
 c.loop(0, inv=_cl(_si_loop, ['chain-of-the-visited-pairs', 'lists-stable', 'other-sets', 'argument-structure-stable'], 'si'))
 c.post_hints = lambda c: flat_view_lemmas(c, c.cur) if c.mode == 'prove' else []
+
+
+# ---------------------------------------------------------------- Sequence.append
+c = contract('Sequence.append', FS).param('self').param('sequences_or_jobs', 'varargs').returns('none')
+c.for_props('C19')
+c.fieldmap = {'jobs': 'seqjobs'}
+c.requires('self-is-a-sequence', lambda c: And(
+    isa['Sequence'](c.a.self), c.pre.alive(c.pre.f('seqjobs', c.a.self)), isa['list'](c.pre.f('seqjobs', c.a.self)),
+    seq_jobs_ok(c.pre, c.pre.f('seqjobs', c.a.self)), c.pre.llen(c.pre.f('seqjobs', c.a.self)) >= 0,
+    c.pre.f('seqjobs', c.a.self) != c.a.sequences_or_jobs))
+c.requires('arguments-are-jobs-sequences-or-None', lambda c: flatten_args_ok(c.pre, c.a.sequences_or_jobs))
+c.requires('the-sequence-is-not-appended-to-itself', lambda c: (lambda k: ForAll([k], Implies(
+    And(0 <= k, k < c.pre.llen(c.a.sequences_or_jobs)), c.pre.lat(c.a.sequences_or_jobs, k) != c.a.self),
+    patterns=[c.pre.lat(c.a.sequences_or_jobs, k)]))(fresh('k', L.I)))
+c.requires('scheduler-is-None-or-a-scheduler', lambda c: Or(
+    c.pre.f('scheduler', c.a.self) == NONE,
+    And(is_sched(c.pre.f('scheduler', c.a.self)), c.pre.alive(c.pre.f('scheduler', c.a.self)))))
+c.modifies('$elems', '$alive', '$llen', '$lat', '$setrole')
+
+
+def _ap_jobs(c):
+    """self.jobs (same list object) = old jobs ++ flat(arguments)"""
+    sj = c.pre.f('seqjobs', c.a.self)
+    n0 = c.pre.llen(sj)
+    args = c.a.sequences_or_jobs
+    off = c.cur.g.get('$flat-off')
+    res = c.cur.g.get('$flat-res')
+    i = fresh('i', L.I)
+    same_obj = c.cur.f('seqjobs', c.a.self) == sj
+    keep = ForAll([i], Implies(And(0 <= i, i < n0), c.cur.lat(sj, i) == c.pre.lat(sj, i)), patterns=[c.cur.lat(sj, i)])
+    if off is None:
+        # nothing flattened (no argument at all): the list is untouched
+        return And(same_obj, c.cur.llen(sj) == n0, keep)
+    return And(same_obj, c.cur.llen(sj) == n0 + off(c.pre.llen(args)), keep,
+               ForAll([i], Implies(And(0 <= i, i < off(c.pre.llen(args))), c.cur.lat(sj, n0 + i) == c.cur.lat(res, i)),
+                      patterns=[c.cur.lat(res, i)]))
+
+
+def _ap_edges(c):
+    """new edges: exactly the chain links from the old last job onwards"""
+    sj = c.pre.f('seqjobs', c.a.self)
+    n0, n1 = c.pre.llen(sj), c.cur.llen(sj)
+    i = fresh('i', L.I)
+    start = z3.If(n0 >= 1, n0 - 1, 0)
+    link = lambda a, b: Exists([i], And(start <= i, i < n1 - 1, c.cur.lat(sj, i + 1) == a, c.cur.lat(sj, i) == b, a != b))
+    return req_changed_only_by(c, c.cur, link)
+
+
+def _ap_sched(c):
+    S = c.pre.f('scheduler', c.a.self)
+    sj = c.pre.f('seqjobs', c.a.self)
+    n0 = c.pre.llen(sj)
+    y = q()
+    p = fresh('p', L.I)
+    isnew = lambda y_: Exists([p], And(n0 <= p, p < c.cur.llen(sj), c.cur.lat(sj, p) == y_))
+    return Implies(S != NONE, ForAll([y], member(c.cur, S, y) == Or(member(c.pre, S, y), isnew(y)),
+                                     patterns=[member(c.cur, S, y)]))
+
+
+c.ensures('jobs-extended-by-the-flattened-arguments', _ap_jobs, props=['C19'])
+c.ensures('chains-the-new-jobs-behind-the-last-one-and-with-one-another', _ap_edges, props=['C19'])
+c.ensures('registers-the-new-jobs-in-the-scheduler', _ap_sched, props=['C19'])
+
+
+def _ap_loop(c):
+    st = c.cur
+    lp = c.loop_pre
+    chain = st.env['chain'].t
+    s = q()
+    return [
+        ('links-of-the-visited-pairs', req_changed_only_by(c, st, chain_edges(c, st, chain, c.index))),
+        ('lists-stable', And(st.H('seqjobs') == lp.H('seqjobs'), st.H('scheduler') == lp.H('scheduler'),
+                             ForAll([s], Implies(lp.alive(s), And(
+                                 st.llen(s) == lp.llen(s), Select(st.H('$lat'), s) == Select(lp.H('$lat'), s),
+                                 st.f('$setrole', s) == lp.f('$setrole', s))), patterns=[st.llen(s)]))),
+        ('other-sets', ForAll([s], Implies(And(c.pre.alive(s), st.f('$setrole', s) != 1), st.elems(s) == c.pre.elems(s)),
+                              patterns=[st.elems(s)])),
+    ]
+
+
+c.loop(0, inv=_cl(_ap_loop, ['links-of-the-visited-pairs', 'lists-stable', 'other-sets'], 'ap'))
+def _ap_post_hints(c):
+    if c.mode != 'prove' or '$flat-off' not in c.cur.g or 'chain' not in c.cur.env:
+        return []
+    st = c.cur
+    sj = c.pre.f('seqjobs', c.a.self)
+    n0 = c.pre.llen(sj)
+    chain = st.env['chain'].t
+    res = st.g['$flat-res']
+    off = st.g['$flat-off']
+    nnew = off(c.pre.llen(c.a.sequences_or_jobs))
+    start = z3.If(n0 >= 1, n0 - 1, 0)
+    i = fresh('i', L.I)
+    return [
+        L.Lemma('length-of-the-chain', st.llen(chain) == z3.If(n0 >= 1, 1, 0) + nnew),
+        L.Lemma('the-new-list-is-still-there', And(st.llen(res) == nnew, st.alive(res))),
+        L.Lemma('the-extended-list', And(st.llen(sj) == n0 + nnew, ForAll([i], Implies(
+            And(0 <= i, i < n0 + nnew), st.lat(sj, i) == If(i < n0, c.pre.lat(sj, i), st.lat(res, i - n0))),
+            patterns=[st.lat(sj, i)]))),
+        L.Lemma('the-chain-is-the-tail-of-the-extended-list', ForAll([i], Implies(
+            And(0 <= i, i < st.llen(chain)), st.lat(chain, i) == st.lat(sj, start + i)), patterns=[st.lat(chain, i)])),
+    ]
+
+
+c.post_hints = _ap_post_hints
